@@ -87,6 +87,7 @@ type KVParams struct {
 	PSearch     bool
 	BadEnds     float64 // probability that a write transaction ends in rollback / fn error
 	ManyKeys    float64 // probability that the run uses a large key set (B+ tree splits)
+	Boundary    bool    // scan offsets and limits also from negative and extreme values (C20)
 	BigP        float64 // probability that a multi-op write transaction carries an oversized entry (its commit must fail)
 	Restart     float64 // probability of a dirty restart step after a transaction
 	Merge       float64 // probability of a Merge step after a transaction
@@ -163,6 +164,12 @@ func (g *G) kvRead(p KVParams) prog.Op {
 			pre = ""
 		}
 		op := prog.Op{K: "prefix", B: b, Key: pre, I: 0, J: -1}
+		if p.Boundary && r.Bool(0.5) {
+			ext := []int{-1, -2, -9223372036854775808, 9223372036854775807, 0, 1, 2147483647, -2147483648}
+			op.I = ext[r.Intn(len(ext))]
+			op.J = ext[r.Intn(len(ext))]
+			return op
+		}
 		if p.Paging && !p.NoLimitOnly {
 			op.I = r.Intn(len(g.Keys) + 2)
 			op.J = 1 + r.Intn(len(g.Keys)+1)
@@ -181,6 +188,12 @@ func (g *G) kvRead(p KVParams) prog.Op {
 			pre = firstRune(pre)
 		}
 		op := prog.Op{K: "psearch", B: b, Key: pre, Re: res[r.Intn(len(res))], I: 0, J: -1}
+		if p.Boundary && r.Bool(0.5) {
+			ext := []int{-1, -2, -9223372036854775808, 9223372036854775807, 0, 1}
+			op.I = ext[r.Intn(len(ext))]
+			op.J = ext[r.Intn(len(ext))]
+			return op
+		}
 		if p.Paging && r.Bool(0.5) {
 			op.J = 1 + r.Intn(len(g.Keys)+1)
 		}
